@@ -68,6 +68,10 @@ def cross_section(self: BaseRollPass.OutProfile) -> Polygon:
         raise ValueError(
             "Profile's width can not be larger than its contour lines." "May be caused by critical overfilling."
         )
+    if cs.is_empty or not cs.is_valid or not cs.is_simple:
+        raise ValueError(
+            "The prescribed width does not yield a valid cross-section." "May be caused by overfilling a closed roll gap."
+        )
     return cs
 
 
